@@ -144,18 +144,41 @@ func C24(c *Ctx) {
 	if fn := c.Fn("raftstore/store", "Store.SplitRegion"); fn != nil {
 		// split key strictly inside: two bytes.Compare guards (>= EndKey rejects, <= StartKey rejects)
 		ge, le := false, false
-		for _, b := range fn.Blocks {
-			if ifi := ifOf(b); ifi != nil {
-				if bo, ok := ifi.Cond.(*ssa.BinOp); ok {
-					if call, ok := bo.X.(*ssa.Call); ok && Named("bytes.Compare")(call.Common()) {
-						if bo.Op == token.GEQ {
-							ge = true
-						}
-						if bo.Op == token.LEQ {
-							le = true
-						}
-					}
+		scan := func(f *ssa.Function) {
+			AllInstrs(f, false, func(in ssa.Instruction) {
+				bo, ok := in.(*ssa.BinOp)
+				if !ok {
+					return
 				}
+				op := bo.Op
+				call, isCall := bo.X.(*ssa.Call)
+				if !isCall {
+					// 0 OP bytes.Compare(..)
+					call, isCall = bo.Y.(*ssa.Call)
+					op = flipOp(op)
+				}
+				if !isCall || !Named("bytes.Compare")(call.Common()) {
+					return
+				}
+				// operands: the candidate split key against the parent's EndKey / StartKey; with the
+				// arguments swapped the operator mirrors (Compare(end,key) <= 0 ≡ Compare(key,end) >= 0)
+				a, b := fieldNameOf(call.Call.Args[0]), fieldNameOf(call.Call.Args[1])
+				switch {
+				case b == "EndKey" && op == token.GEQ, a == "EndKey" && op == token.LEQ:
+					ge = true
+				case b == "StartKey" && a != "EndKey" && op == token.LEQ, a == "StartKey" && b != "EndKey" && b != "StartKey" && op == token.GEQ:
+					le = true
+				case a == "StartKey" && b == "StartKey" && (op == token.LEQ || op == token.GEQ):
+					// child.StartKey against parent.StartKey in either argument order
+					le = true
+				}
+			})
+		}
+		scan(fn)
+		for _, ci := range Calls(fn, false, func(cc *ssa.CallCommon) bool { return true }) {
+			if h := StaticFn(ci.Common()); h != nil && h.Blocks != nil && h != fn && FuncPkgPath(h) == FuncPkgPath(fn) && len(Calls(h, false, Named("bytes.Compare"))) > 0 {
+				c.Touch(h)
+				scan(h)
 			}
 		}
 		c.Decide(ge && le, r3, key(fn, "split-key-strictly-inside"), fn.Pos(), 2, "split key must satisfy start < key < end", "the split-key range guards (>= end rejects, <= start rejects) are missing or weakened")
